@@ -9,13 +9,17 @@ from props import solver_common as sc
 
 ID = 'C02'
 PROPS_FILE = 'Props/C02.v'
-MODEL_FILES = ['Solver/Solver.v', 'Solver/SolverF.v']
-K_NAME = 'K_solve_t (Solver.solve_t_M instantiated with PrimFloat vs BaseModel.solve_t / solve_period on scripted models)'
+MODEL_FILES = ['Solver/Solver.v', 'Solver/SolverF.v', 'Solver/SolveAll.v', 'Solver/SolveAllSpan.v', 'Solver/SolveAllPeriod.v', 'Solver/SolveAllF.v']
+K_NAME = ('K_solve_t (Solver.solve_t_M instantiated with PrimFloat vs BaseModel.solve_t / solve_period on scripted models; solve_period over '
+          'every span type through SolveAll.solve_period_M with the modelled label lookup SolveAllSpan.locate_span / SolveAllPeriod.locate_qindex)')
 RULE = ('scripted models: exhaustive per-pass value sequences of one check variable up to length 3 over a palette that contains 0, tol, '
         'tol-1ulp, tol+1ulp (so |move| hits tol exactly and either side of it) x min_iter in 0..max_iter+1 x max_iter in 0..3 x failures; '
         'random 1-3 check variables (all-vs-any), positive/negative t, offsets in and out of span, hooks that write check values, affine '
         'contractive/divergent/oscillating passes, solve_period entry, some faulting scripts; instance-level lags/leads with the period on '
-        'either side of both feasibility boundaries (all n<=4 x lags,leads<=2 x both spellings of t enumerated). Non-trivial = at least 2 passes executed, or '
+        'either side of both feasibility boundaries (all n<=4 x lags,leads<=2 x both spellings of t enumerated); solve_period(label) for every label '
+        'specification (each label, an unknown label, PeriodIndex strings / year strings) on every span type of solver_common.SPAN_KIND (range, list, '
+        'tuple, NumPy, pandas Index, PeriodIndex, spans with repeated and with falsy labels) x lengths 1..4 with tol-boundary scripts, compared with '
+        'solve_t(position) on a twin instance. Non-trivial = at least 2 passes executed, or '
         'stop exactly at k=min_iter or k=max_iter, or an exception path; distinct by hash of the whole case.')
 TRUSTED = ['scripted-model subclass harness/scripted.py (same script is the Coq oracle)']
 ASSUMPTIONS = ['_evaluate and the hooks modify only variable values (not status/iterations) — the shape of the model\'s oracles',
@@ -25,6 +29,8 @@ CASE_TIMEOUT = 20
 
 
 def impl(case):
+    if case.get('kind') == 'sp':
+        return sc.impl_solve(case)
     return sc.impl_solve_t(case)
 
 
@@ -128,14 +134,52 @@ def gen(rng, tier):
                             c['scripts'] = {str(p): {'before': [['set', 1, lib.fhex(3.0)]],
                                                      'passes': [[['set', 0, lib.fhex(1.0)]], [['set', 0, lib.fhex(1.0)]]]}}
                             fixed.append(c)
-    return fixed + cases
+    return fixed + cases + span_cases(rng, tier)
+
+
+def span_cases(rng, tier):
+    """solve_period(label) on every span type: the label -> position step of the statement, end to end"""
+    out = []
+    pal = sc.PALETTE_FINITE
+    reps = 1 if tier == 'quick' else 4
+    for _ in range(reps):
+        for st in sc.SPAN_KIND:
+            for n in range(1, 5):
+                for spec in sc.label_specs(st, n)[1:]:
+                    mx = rng.randint(0, 4)
+                    mn = rng.randint(0, mx + 1) if rng.random() < 0.9 else mx + 1
+                    lags, leads = (rng.choice([0, 1]), rng.choice([0, 1])) if rng.random() < 0.25 else (0, 0)
+                    c = sc.solve_case(span_type=st, n=n, start=spec, end=None, entry='solve_period', nvars=2, check=(0,), endo=(0,),
+                                      lags=lags, leads=leads, min_iter=mn, max_iter=mx, failures=rng.choice(['raise', 'ignore']),
+                                      errors='raise', catch_first_error=rng.random() < 0.5,
+                                      offset=rng.choice([0, 0, 0, -1, 1]))
+                    c['kind'] = 'sp'
+                    c['scripts'] = {str(q): {'passes': sc.value_script([[rng.choice(pal)] for _ in range(rng.randint(0, 5))], [0])}
+                                    for q in range(n)}
+                    for q in range(n):
+                        c['vals'][0][q] = lib.fhex(rng.choice(pal))
+                    out.append(c)
+    return out
 
 
 def correspond(cases, obs, tag, tier):
-    return sc.correspond_solve_t(cases, obs, tag)
+    one = [(i, c, o) for i, (c, o) in enumerate(zip(cases, obs)) if c.get('kind') != 'sp']
+    sp = [(i, c, o) for i, (c, o) in enumerate(zip(cases, obs)) if c.get('kind') == 'sp']
+    bad, errs = [], []
+    if one:
+        b, e = sc.correspond_solve_t([x[1] for x in one], [x[2] for x in one], tag + 'a')
+        bad += [one[j][0] for j in b]
+        errs += e
+    if sp:
+        b, e = sc.correspond_solve([x[1] for x in sp], [x[2] for x in sp], tag + 'b')
+        bad += [sp[j][0] for j in b]
+        errs += e
+    return sorted(bad), errs
 
 
 def explain(case, obs):
+    if case.get('kind') == 'sp':
+        return sc.explain_solve(case, obs)
     return sc.explain_solve_t(case, obs)
 
 
@@ -150,6 +194,49 @@ def _pos(case):
 
 def oracle(case, obs):
     """The C02 statement evaluated directly on the implementation's observations."""
+    if case.get('kind') == 'sp':
+        return oracle_sp(case, obs)
+    return oracle_t(case, obs)
+
+
+def as_solve_t(case, position):
+    """the solve_t-format case a solve_period(label) call stands for once the label is resolved"""
+    c = dict(case)
+    c['t'] = position
+    return c
+
+
+def oracle_sp(case, obs):
+    """solve_period(label): identical to solve_t(position of label) on a twin instance, and the statement's clauses hold for it;
+    an unknown label (or one that is not a single position) raises KeyError with no change."""
+    fails = []
+
+    def bad(sig, what):
+        fails.append({'sig': 'C02|' + sig, 'what': what})
+    exp = sc.expected_range(case)
+    out = obs['out']
+    unchanged = (obs['vals'] == case['vals'] and obs['status'] == case['status'] and obs['iters'] == case['iters'] and not obs['log'])
+    if exp is None:
+        return fails
+    if exp[0] == 'keyerror':
+        if out[:2] != ['raise', 'KeyError'] or not unchanged:
+            bad('solve_period|bad-label', 'solve_period(%r) on a %s span: a label that is unknown or not a single position must raise KeyError '
+                'with no change; got %s, unchanged=%s' % (case['start'], case['span_type'], out[:3], unchanged))
+        return fails
+    if exp[0] != 'range':
+        return fails
+    a = exp[1]
+    tw = obs.get('twin')
+    if tw is not None:
+        want = tw['out'][:3] if tw['out'][0] == 'raise' else ['ret', tw['out'][1][0]]
+        same = (obs['vals'], obs['status'], obs['iters'], obs['log']) == (tw['vals'], tw['status'], tw['iters'], tw['log'])
+        if out[:3] != want or not same:
+            bad('solve_period|vs-solve_t', 'solve_period(%r) on a %s span must be identical to solve_t(%d): outcome %s vs %s, states equal=%s'
+                % (case['start'], case['span_type'], a, out[:3], want, same))
+    return fails + oracle_t(as_solve_t(case, a), obs)
+
+
+def oracle_t(case, obs):
     fails = []
 
     def bad(sig, what):
@@ -222,6 +309,8 @@ def oracle(case, obs):
 
 
 def nontrivial(case, obs):
+    if case.get('kind') == 'sp' and obs['out'][:2] == ['raise', 'KeyError']:
+        return True
     m = len(obs['passvecs'])
     o = case['opts']
     return m >= 2 or obs['out'][0] == 'raise' or (m >= 1 and m in (o['min_iter'], o['max_iter']))
@@ -229,6 +318,9 @@ def nontrivial(case, obs):
 
 def bucket(case, obs):
     o = case['opts']
+    if case.get('kind') == 'sp':
+        out = obs['out']
+        return '/'.join(['solve_period', case['span_type'], out[1] if out[0] == 'raise' else 'ret'])
     b = []
     b.append('off' if o['offset'] else 'nooff')
     if case.get('lags', 0) or case.get('leads', 0):
@@ -241,6 +333,8 @@ def bucket(case, obs):
 
 
 def shrink_candidates(case):
+    if case.get('kind') == 'sp':
+        return
     ps = list(case['scripts'].items())
     for key, sc_ in ps:
         passes = sc_.get('passes', [])
